@@ -18,7 +18,7 @@ From Coq Require Import ZArith List Bool.
 From V Require Import Base.Int Base.IO.
 From V Require Import Spec.Zone Proofs.TzCommon.
 From V Require Spec.Gregorian.
-From V Require Import Model.TzParser Model.TzRule Model.TzLookup Model.C05 Proofs.C05 Proofs.C05Composite Proofs.C05Glue.
+From V Require Import Model.TzParser Model.TzRule Model.TzLookup Model.C05 Proofs.C05 Proofs.C05Composite Proofs.C05Glue Proofs.C05Judge.
 From V Require Model.Date Model.DateTime.
 Import ListNotations.
 Open Scope Z_scope.
@@ -417,6 +417,32 @@ Theorem C05_composite_example_readings :
   instants_of_wall exc_cz 1698546600 = [1698539400; 1698543000].
 Proof. exact exc_readings. Qed.
 Print Assumptions C05_composite_example_readings.
+
+(* the continuity condition against the JUDGE's own domain condition for composite zones
+   ([J] = Judge/C05.v; [J.spacing_rule_table]: every rule transition of the three years around the
+   last table transition continues the table / ends its window before / begins it after the last
+   table window): where the last table transition lies in one calendar year on the clocks involved
+   (clause (1)) and the offset after it is the rule's (clause (2)), a zone the judge calls well spaced
+   satisfies footer_continues -- the readings judged under lz.loc / lz.sel / lz.rt on such zones are
+   readings C05_composite_classification speaks about *)
+Theorem C05_judge_spacing_footer_continues : forall first tr r tl pv ol,
+  let cz := mk_szone first tr (Some (inr r)) in
+  let k := utc_year (tl + ol) in
+  increasing tr = true -> last_window tr first = Some (tl, pv, ol) ->
+  J.spacing_rule_table cz r = true ->
+  utc_year tl = k ->
+  (year_start k <=? tl + Z.min (r_std r) (r_dst r)) = true ->
+  (tl + Z.max (Z.max (r_std r) (r_dst r)) pv <? year_start (k + 1)) = true ->
+  roff r tl = ol -> rule_year_hyps r k ->
+  footer_continues cz = true.
+Proof. exact judge_spacing_footer_continues. Qed.
+Print Assumptions C05_judge_spacing_footer_continues.
+Theorem C05_judge_spacing_example :
+  J.spacing_rule_table exc_cz (conv_rule exc_rule) = true /\
+  J.spacing_ok exc_cz 1729996200 = true /\
+  utc_year 1698541200 = utc_year (1698541200 + 3600).
+Proof. exact exc_judge. Qed.
+Print Assumptions C05_judge_spacing_example.
 
 (* a table followed by a FIXED footer (zones that abolished daylight time, "JST-9"): when the footer's
    offset is the offset after the last transition the same classification holds, for every reading
